@@ -337,7 +337,13 @@ template <class AdF, class AdT> void cast_pair(const char* name, uint64_t seed, 
         int e = (int)(g() % 40) - 20;
         // every fifth set: anywhere in the source type's normal range - beyond the destination's range a plain cast gives +-infinity, below it a subnormal or zero
         if (t % 5 == 2 && !normalised) { const int lo = std::numeric_limits<F>::min_exponent + 2, hi = std::numeric_limits<F>::max_exponent - 2; e = lo + (int)(g() % (unsigned)(hi - lo + 1)); }
-        c[i] = std::ldexp(m, e) * ((g() & 1) ? 1 : -1); }  // not representable in narrower types
+        c[i] = std::ldexp(m, e) * ((g() & 1) ? 1 : -1);   // not representable in narrower types
+        // narrowing, every fifth set: the rounding decision itself - the midpoint of two neighbouring destination values and the source values
+        // up to two source ulps on either side of it (a cast that goes through an intermediate type rounds twice and lands on the other neighbour)
+        if (sizeof(T) < sizeof(F) && t % 5 == 3 && !normalised) { T t0 = static_cast<T>(c[i]); T t1 = std::nextafter(t0, t0 > 0 ? std::numeric_limits<T>::infinity() : -std::numeric_limits<T>::infinity());
+          F v = ((F)t0 + (F)t1) / 2; int k = (int)(g() % 5) - 2;
+          for (int s = 0; s < std::abs(k); s++) v = std::nextafter(v, k > 0 ? std::numeric_limits<F>::infinity() : -std::numeric_limits<F>::infinity());
+          c[i] = v; } }
     QF src = AdF::make(c); F sc[9]; getc(src, sc);
     QT dst(src);                         // converting construction
     T dc[9]; getc(dst, dc);
